@@ -111,8 +111,6 @@ def mmul(a, b, sign=1):
         return r.coef if not r.syms else r
     if isinstance(a, RawTok):
         ob = mb.origin if mb is not None else getattr(b, "origin", b)
-        if ob == 1.0:
-            return a
         return RawTok(("*" if sign > 0 else "/", a.origin, ob), a.shape)
     raise Unsupported("magnitude arithmetic on %r, %r" % (a, b))
 
